@@ -1792,7 +1792,30 @@ def run_check(ctx, owners, n_valid, n_mut, families, rule, trusted, prop_files=(
     if not evaluated and not ctx.violations:
         kernel.obligation_violation(ctx, thms, "; ".join(ctx.notes[-3:]), {"correspondence": "Coq evaluation of scenario cases failed"})
     if not ok and not ctx.violations:
-        kernel.obligation_violation(ctx, thms, log)
+        # a regenerated table no longer equals the specification's: look for a cell (variable type, initial, method,
+        # source type, step) on which the implementation's verdict differs from what the specification expects
+        found = 0
+        try:
+            import impl as _impl
+            cells = all_cells()
+            random.Random(ctx.seed + 8).shuffle(cells)
+            cells = cells[:6000]
+            docs = []
+            for c in cells:
+                sc = cell_scenario(c)
+                docs.append(S.render(sc, random.Random(1), "id", False, False))
+            pool = _impl.Pool(ctx)
+            res = pool.validate_many(docs)
+            pool.close()
+            for c, d, r in zip(cells, docs, res):
+                if (r["outcome"] == "accept") != bool(cell_expected(c)) and found < 3:
+                    found += 1
+                    ctx.violation({"what": "pipeline typing: the implementation's verdict on a (variable type, initial value, method, source type, step) cell differs from the specification's tables",
+                                   "cell": list(map(str, c)), "specification_accepts": bool(cell_expected(c)), "implementation": r, "document": d})
+        except BaseException as e:  # noqa
+            ctx.notes.append("cell search failed: %r" % (e,))
+        if not found:
+            kernel.obligation_violation(ctx, thms, log)
     return items
 
 
